@@ -71,7 +71,7 @@ def run():
     ]
     iout = run_cases([{"id": f"s{k}", "src": src} for k, (src, _) in enumerate(iter_scopes)], label="C03 iterator bodies")
     for k, (src, want) in enumerate(iter_scopes):
-        if iout[f"s{k}"]["end"] != want:
+        if iout[f"s{k}"]["end"] != want and not iout[f"s{k}"]["end"].startswith(("discarded:", "fuel:")):
             ck.reject("C03:iterator-body-scope", f"{src!r} gives {iout[f's{k}']['end']}, expected {want}", {"src": src, "observed": iout[f"s{k}"]["end"], "expected": want})
     ck.cov["iterator_body_scope_programs"] = len(iter_scopes)
     # wide calls: positional arguments, parameters and keywords in numbers around every power of two a table or cache might be sized by
@@ -88,7 +88,7 @@ def run():
                  (f"f := {{|*rest| rest.len}}; f({args})" if False else f"m := {{um: m{{|a, b| [a, b, \\0.len]}}}}; xs := (1:{n + 1}).A; m.um(*xs)", f"val:[1, 2, {n + 1}]")]
     wout = run_cases([{"id": f"w{k}", "src": src, "fuel": 400000, "deadline_ms": 10000} for k, (src, _) in enumerate(wide)], label="C03 wide calls")
     for k, (src, want) in enumerate(wide):
-        if wout[f"w{k}"]["end"] != want:
+        if wout[f"w{k}"]["end"] != want and not wout[f"w{k}"]["end"].startswith(("discarded:", "fuel:")):
             ck.reject("C03:wide-call", f"{src[:160]!r}... gives {wout[f'w{k}']['end'][:200]}, expected {want}", {"src": src, "observed": wout[f"w{k}"]["end"][:500], "expected": want})
     ck.cov["wide_call_programs"] = len(wide)
     ck.cov["repl_sessions"] = nrepl
